@@ -197,7 +197,9 @@ def cases(draw):
 
 
 def _corpus_walk(ctx):
-    """thorough: corpus x all whitespace rewritings; digit-bearing corpus strings x all Nd blocks."""
+    """corpus x all whitespace rewritings; digit-bearing corpus strings x all Nd blocks (quick: two seeded blocks per string).
+    Enumerated rather than drawn: a rewriting that only matters for one shape of string (a number followed by a longer number,
+    a string ending in a dot, ...) meets every corpus string of that shape in every run."""
     def it(shard, nshards):
         blocks = digit_blocks()
         for i, e in enumerate(corpus()):
@@ -207,13 +209,15 @@ def _corpus_walk(ctx):
             for how in WS:
                 yield {"s": e["s"], "lang": lang, "src": "corpus", "family": "ws", "how": how}
             if any("0" <= c <= "9" for c in e["s"]):
-                for b in blocks:
+                bl = blocks
+                if ctx.quick:
+                    h = derive_seed(ctx.seed, "digits", i)
+                    bl = [blocks[h % len(blocks)], blocks[(h >> 16) % 12]]
+                for b in bl:
                     yield {"s": e["s"], "lang": lang, "src": "corpus", "family": "digits", "how": list(b)}
     return it
 
 
 def stages(ctx):
-    out = [Stage("rewritings", "hyp", strategy=cases(), examples=ctx.n(24000, 200000))]
-    if not ctx.quick:
-        out.append(Stage("corpus_walk", "enum", cases=_corpus_walk(ctx), exhaustive=True))
-    return out
+    return [Stage("corpus_walk", "enum", cases=_corpus_walk(ctx), exhaustive=not ctx.quick),
+            Stage("rewritings", "hyp", strategy=cases(), examples=ctx.n(14000, 200000))]
